@@ -50,7 +50,7 @@ class WorldC01(World):
     WALL = {'quick': 50, 'thorough': 560}
     STATE_CHANGING = ('mkmode', 'mkspecies', 'edit', 'swap')
     STATE_RULE = 'per species: (mode classes in its five slots, modes shared with another species, edits since construction bucket)'
-    PROBES = ('edit-imaginary-substitute', 'edit-wavenumbers', 'edit-spin', 'edit-qrrho-parameter', 'mode-shared-by-two-species',
+    PROBES = ('edit-imaginary-substitute', 'edit-wavenumbers', 'edit-wavenumbers-in-place', 'integer-wavenumbers', 'edit-spin', 'edit-qrrho-parameter', 'mode-shared-by-two-species',
               'swap-mode', 'imaginary-mode-present', 'monatomic-rotor', 'linear-rotor', 'trans-1-or-2-dof', 'point-group-label',
               'debye-mode', 'einstein-mode', 'qrrho-mode', 'low-T-regime', 'high-T-regime', 'verbose-sum', 'pressure-shift',
               'textbook-harmonic', 'textbook-trans', 'textbook-rotor', 'textbook-elec', 'textbook-einstein', 'textbook-debye-Cv', 'textbook-qrrho', 'geometry-rigid-motion')
@@ -103,7 +103,11 @@ class WorldC01(World):
             wn = [round(10 ** u(1, math.log10(4500)), 2) for _ in range(rng.randint(1, 6))]
             if rng.random() < 0.3:
                 wn.insert(rng.randrange(len(wn) + 1), -round(u(50, 900), 2))
+            if rng.random() < 0.2:
+                wn = [int(round(w)) for w in wn]          # whole-number input, as typed from an output file
             p = {'vib_wavenumbers': wn, 'imaginary_substitute': rng.choice([None, None, round(u(10, 100), 1)])}
+            if rng.random() < 0.25:
+                p['wn_as'] = 'list'
             if kind == 'QRRHOVib':
                 p.update({'Bav': rng.choice([1e-44, 2.5e-44]), 'v0': rng.choice([100.0, 50.0, 150.0]),
                           'alpha': rng.choice([4, 2, 6])})
@@ -157,6 +161,11 @@ class WorldC01(World):
                     # geometry and rotational temperatures only make sense together
                     return {'c': c, 'op': 'edit', 'args': {'mode': mid, 'set': {'geometry': newp['geometry'],
                                                                                  'rot_temperatures': newp['rot_temperatures']}}}
+                if attr == 'vib_wavenumbers' and rng.random() < 0.4:
+                    n = len(self.mp[mid]['vib_wavenumbers'])
+                    how = rng.choice([{'how': 'scale', 'f': rng.choice([0.96, 0.9614, 1.05])},
+                                      {'how': 'item', 'i': rng.randrange(n), 'v': round(10 ** rng.uniform(1, 3.6), 2)}])
+                    return {'c': c, 'op': 'edit', 'args': {'mode': mid, 'inplace': how, 'set': {}}}
                 return {'c': c, 'op': 'edit', 'args': {'mode': mid, 'set': {attr: newp[attr]}}}
             kind = 'eval'
         if kind == 'swap' and self.sp:
@@ -175,7 +184,12 @@ class WorldC01(World):
     def _build_mode(self, kind, params):
         p = dict(params)
         if kind in ('HarmonicVib', 'QRRHOVib'):
-            p['vib_wavenumbers'] = self.np.array(p['vib_wavenumbers'])
+            if p.pop('wn_as', 'array') == 'list':
+                p['vib_wavenumbers'] = list(p['vib_wavenumbers'])
+            else:
+                p['vib_wavenumbers'] = self.np.array(p['vib_wavenumbers'])
+            if all(isinstance(w, int) for w in params['vib_wavenumbers']):
+                self.ctx.probe('integer-wavenumbers')
         if kind == 'RigidRotor':
             p['rot_temperatures'] = list(p['rot_temperatures'])
         return self.cls[kind](**p)
@@ -220,6 +234,28 @@ class WorldC01(World):
             for attr, val in a['set'].items():
                 if attr not in PARAMS[k]:
                     raise Skip()
+            if a.get('inplace'):
+                # "model.vib_wavenumbers *= 0.96" and "w = model.vib_wavenumbers; w[i] = v; model.vib_wavenumbers = w":
+                # the setter receives the object the getter returned, already changed
+                h = a['inplace']
+                if k not in ('HarmonicVib', 'QRRHOVib'):
+                    raise Skip()
+                cur = m.vib_wavenumbers
+                if not (isinstance(cur, self.np.ndarray) and cur.dtype.kind == 'f'):
+                    raise Skip()
+                old = list(self.mp[a['mode']]['vib_wavenumbers'])
+                if h['how'] == 'scale':
+                    m.vib_wavenumbers *= h['f']
+                    new = [float(w) * h['f'] for w in old]
+                else:
+                    if not 0 <= h['i'] < len(old):
+                        raise Skip()
+                    cur[h['i']] = h['v']
+                    m.vib_wavenumbers = cur
+                    new = [float(w) for w in old]
+                    new[h['i']] = h['v']
+                self.mp[a['mode']]['vib_wavenumbers'] = new
+                ctx.probe('edit-wavenumbers-in-place')
             for attr, val in a['set'].items():
                 v = self.np.array(val) if attr == 'vib_wavenumbers' else (list(val) if attr == 'rot_temperatures' else val)
                 if attr == 'symmetrynumber' and isinstance(val, str):
